@@ -19,6 +19,8 @@ rule("C10.b", "on every path from the entry of a set-up / report method to a rea
               "re-establishes it for another asset", floor=12)
 rule("C16.h", "a wrapper (scaled / structured / linked asset) reads the shared grid cache only after re-establishing it for itself, "
               "i.e. after the wrapped set-up has overwritten it", floor=2)
+rule("C17.i", "the cost vector a set-up returns under costs_only (the samples of the robust / stochastic targets) is computed from the grid "
+              "cache of *this* asset: the cache is (re-)established before the costs_only return reads it", floor=0)
 rule("C10.c", "discount factors are created before the sub-grid that copies them, and every sub-grid branch copies them", floor=3)
 rule("C10.g", "the primitives that establish the shared grid cache for an asset (Timegrid.set_wacc, Timegrid.set_restricted_grid) "
               "write it on every path: no shortcut leaves the previous asset's discount factors / sub-grid in place", floor=2,
@@ -174,7 +176,7 @@ def must_assign(fn) -> frozenset:
     return out if out is not None else frozenset()
 
 
-@analysis("gridcache", ["C10.b", "C10.c", "C16.h", "C10.g"])
+@analysis("gridcache", ["C10.b", "C10.c", "C16.h", "C10.g", "C17.i"])
 def run(ctx):
     p = ctx.p
     an = CacheAnalysis(ctx)
@@ -198,6 +200,13 @@ def run(ctx):
                    "self.timegrid.restricted / .discount_factors belong to whichever asset set the shared grid last; here they "
                    "are read on a path on which this asset has not (re-)established them (documented timegrid=None path, or "
                    "after another asset's set-up): " + detail, node=sites[0][0])
+            in_costs_only = [n for n, via in sites if any(isinstance(a, ast.If) and "costs_only" in au.names_in(a.test) for a in p.ancestors(n))]
+            if in_costs_only and mname == "setup_optim_problem":
+                ctx.ob("C17.i", fn, "grid cache read on the costs_only path", False,
+                       "under costs_only the set-up reads self.timegrid.restricted / .discount_factors before it has (re-)established them for "
+                       "this asset (%s): the cost sample differs from the cost vector of the full problem (a scaled asset charges its fix costs "
+                       "over the base asset's window), so the robust / stochastic targets optimise against costs the problem does not have"
+                       % p.where(in_costs_only[0]), node=in_costs_only[0])
             if ci.name in WRAPPERS and mname == "setup_optim_problem":
                 ctx.ob("C16.h", fn, "grid cache read before (re-)establishment", False,
                        "the wrapper reads its window / step lengths from the shared grid after the wrapped asset's set-up overwrote them "
